@@ -197,7 +197,27 @@ def as_reverse_lookup(fn: FunctionInfo) -> Optional[ReverseLookup]:
     loops = [n for n in A.walk_no_nested(fn.node) if isinstance(n, ast.For)]
     if not loops:
         # the same as one expression: return next((k for k, v in table.items() if v == value), default)
+        # - possibly in steps: gen = (..); name = next(gen, default); [if name is default: raise ..]; return name
         body = A.body_without_docstring(fn.node)
+        nexts = [c for c in A.walk_no_nested(fn.node) if isinstance(c, ast.Call) and isinstance(c.func, ast.Name) and c.func.id == "next" and c.args]
+        rets = [r for r in A.walk_no_nested(fn.node) if isinstance(r, ast.Return) and r.value is not None]
+        if len(nexts) == 1 and len(rets) == 1:
+            nx = nexts[0]
+            ge0 = nx.args[0]
+            if isinstance(ge0, ast.Name):
+                defs0 = [a_ for a_ in A.walk_no_nested(fn.node) if isinstance(a_, ast.Assign) and len(a_.targets) == 1 and isinstance(a_.targets[0], ast.Name) and a_.targets[0].id == ge0.id]
+                ge0 = defs0[0].value if len(defs0) == 1 else ge0
+            rv0 = rets[0].value
+            while isinstance(rv0, ast.Call) and isinstance(rv0.func, ast.Name) and rv0.func.id == "cast" and len(rv0.args) == 2:
+                rv0 = rv0.args[1]
+            returned = rv0 is nx
+            if isinstance(rv0, ast.Name):
+                defs1 = [a_ for a_ in A.walk_no_nested(fn.node) if isinstance(a_, ast.Assign) and len(a_.targets) == 1 and isinstance(a_.targets[0], ast.Name) and a_.targets[0].id == rv0.id]
+                returned = len(defs1) == 1 and defs1[0].value is nx
+            if returned and isinstance(ge0, ast.GeneratorExp):
+                body = [ast.Return(value=ast.Call(func=ast.Name(id="next", ctx=ast.Load()), args=[ge0] + list(nx.args[1:]), keywords=[]))]
+                ast.copy_location(body[0], rets[0])
+                ast.copy_location(body[0].value, nx)
         if len(body) == 1 and isinstance(body[0], ast.Return) and isinstance(body[0].value, ast.Call) and isinstance(body[0].value.func, ast.Name) and body[0].value.func.id == "next" and body[0].value.args:
             ge = body[0].value.args[0]
             if isinstance(ge, ast.GeneratorExp) and len(ge.generators) == 1 and len(ge.generators[0].ifs) == 1:
@@ -472,8 +492,10 @@ def expanded_function(fn: FunctionInfo) -> ast.AST:
         return _EXPANDED[key][1]
     node = _deep_clone(fn.node)
     stores: Dict[str, int] = {}
+    decls = {id(n.target) for n in ast.walk(node) if isinstance(n, ast.AnnAssign) and n.value is None}
     for n in ast.walk(node):
-        if isinstance(n, ast.Name) and isinstance(n.ctx, (ast.Store, ast.Del)):
+        if isinstance(n, ast.Name) and isinstance(n.ctx, (ast.Store, ast.Del)) and id(n) not in decls:
+            # (a bare declaration `x: T` binds nothing)
             stores[n.id] = stores.get(n.id, 0) + 1
 
     def pure(x: ast.AST) -> bool:
